@@ -842,6 +842,8 @@ class Walker:
         old = tuple(t.inds)
         tags = frozenset(t.tags)
         if how == 3:
+            if has_rep(t):
+                return None  # numpy cannot transpose by label when a label occurs twice
             perm = [int(i) for i in self.rng.permutation(len(old))]
             new = tuple(old[i] for i in perm)
             self.exp_labels[id(t)] = (new, tags)
@@ -1238,8 +1240,20 @@ class Walker:
         modes = (False, True) if ng == 1 else (False, True, "split", "reduce-split", "split-gate", "swap-split-gate",
                                                 "auto-split-gate")
         contract = self.choice(modes)
-        if contract in ("split", "reduce-split") and any(len(t.inds) > 4 for t, _ in targets):
-            return None
+        if ng == 2 and contract is True:
+            # eager contraction infers its output labels from the three tensors alone (documented domain of output
+            # inference): a label shared by the two gated tensors must not reach a third tensor
+            if any(occA[ix] != 2 for ix in targets[0][0].inds if ix in targets[1][0].inds):
+                return None
+        if contract in ("split", "reduce-split"):
+            # these modes re-create the bond between the two tensors: they need exactly one plain bond (two
+            # occurrences) between them, and its size may change, so no tensor outside A may carry it
+            shared = [ix for ix in targets[0][0].inds if ix in targets[1][0].inds]
+            if len(shared) != 1 or occA[shared[0]] != 2 or any(len(t.inds) > 4 for t, _ in targets):
+                return None
+            inA = {id(t) for t in mem}
+            if any(id(t) not in inA and shared[0] in t.inds for t in self.world_tensors()):
+                return None
         gtags = [self.choice("ABCDE")] if self.coin() else None
         touched = [t for t, _ in targets]
         inplace = self.coin(0.75)
@@ -1248,7 +1262,7 @@ class Walker:
             self.exp_members[id(A)] = {"keep": [x for x in mem if all(x is not g for g in touched)], "new": None}
             for t in touched:
                 self.exp_labels[id(t)] = (WILD, WILD)
-            arg = inds if len(inds) > 1 or self.coin() else inds[0]
+            arg = inds if self.coin() else tuple(inds)
             ok, _ = self.run(lambda: A.tn.gate_inds_(G, arg, contract=contract, tags=gtags))
             if ok:
                 self.post_outer_preserved(A, outer_before, "gate_inds_")
@@ -1507,6 +1521,8 @@ class Walker:
         cc = self.coin(0.8)
         how = self.ri(5)
         inplace = how >= 3
+        if how in (0, 4):
+            cc = True  # the operators always check collisions
         if (virtual or inplace) and any(a is b for a in A.members for b in B.members):
             return None  # one tensor object twice in one network: outside the domain
         if not inplace and len(self.nets) >= self.MAX_NETS:
@@ -1521,7 +1537,6 @@ class Walker:
             for t in bmem:
                 self.exp_labels[id(t)] = (WILD, frozenset(t.tags))
         if how == 0:
-            cc = True
             name = "|" if virtual else "&"
             ok, R = self.run(lambda: (A.tn | B.tn) if virtual else (A.tn & B.tn))
         elif how == 1:
@@ -1535,7 +1550,6 @@ class Walker:
             ok, _ = self.run(lambda: A.tn.add_tensor_network(B.tn, virtual=virtual, check_collisions=cc))
             R = A.tn
         else:
-            cc = True
             name = "|=" if virtual else "&="
 
             def call():
@@ -1714,6 +1728,7 @@ def run_history(cx, qtn, base, steps):
             if p is None:
                 p = dict(op="noop")
         exc = W.exc
+        t_ok = exc is None
         W.exc = None
         eff = W.verify_effect(pre) if exc is None else None
         comb = W.comb
@@ -1749,7 +1764,10 @@ def run_history(cx, qtn, base, steps):
                         return f"net {k} ({type(tn).__name__}, {tn.num_tensors} tensors): {e}"
             return thunk
 
-        results = [cx.check(C_RUN, params, t_run), cx.check(C_EFF, params, lambda eff=eff: eff)]
+        # violations of the persistent-state contracts end the history (they would cascade); a deviation from the
+        # shadow model / a wrong selection / combination result does not (the shadow is re-synchronised every step)
+        results = [cx.check(C_RUN, params, t_run)]
+        cx.check(C_EFF, params, lambda eff=eff: eff)
         del exc, t_run
         results.append(cx.check(C_OWN, params, lambda: check_owners(tns, loose)))
         results.append(cx.check(C_MAPS, params, t_all(check_maps)))
@@ -1757,11 +1775,11 @@ def run_history(cx, qtn, base, steps):
             results.append(cx.check(C_IO, dict(params, net=k, repeated_label_on_one_tensor=bool(n.rep)),
                                     lambda n=n: check_inner_outer(n.tn)))
         results.append(cx.check(C_SIZE, params, t_all(check_sizes)))
-        if p.get("op", "").startswith("combine:") and eff is None and "op" in p:
-            results.append(cx.check(C_COMB, params, lambda comb=comb: comb))
+        if p.get("op", "").startswith("combine:") and t_ok:
+            cx.check(C_COMB, params, lambda comb=comb: comb)
         if q is not None:
-            results.append(cx.check(C_SEL, dict(params, q=dict(tags=sorted(map(str, q[1])), which=q[2], inds=W.lns(q[3]), iwhich=q[4])),
-                                    lambda q=q: check_selection(*q)))
+            cx.check(C_SEL, dict(params, q=dict(tags=sorted(map(str, q[1])), which=q[2], inds=W.lns(q[3]), iwhich=q[4])),
+                     lambda q=q: check_selection(*q))
         if "violation" in results:
             return False
     return True
